@@ -48,11 +48,18 @@ fn observe(s: &Subject, schedule: Vec<((u64, u64), Perm)>) -> (Obs, Vec<IterEven
     let obs = match r {
         Err(p) => Obs::RustPanic(p),
         Ok(Ok(p)) => Obs::Circuit(match &p.circuit {
-            CircuitType::Ssa(c) => format!("ssa inputs={:?} gates={:?} outputs={:?} const_sizes={:?}", c.input_gates, c.gates, c.output_gates, {
-                let mut v: Vec<_> = p.const_sizes.iter().map(|(k, v)| (k.clone(), *v)).collect();
-                v.sort();
-                v
-            }),
+            CircuitType::Ssa(c) => format!(
+                "ssa inputs={:?} gates={:?} outputs={:?} const_sizes={:?} bristol={}",
+                c.input_gates,
+                c.gates,
+                c.output_gates,
+                {
+                    let mut v: Vec<_> = p.const_sizes.iter().map(|(k, v)| (k.clone(), *v)).collect();
+                    v.sort();
+                    v
+                },
+                bristol_text(c)
+            ),
             CircuitType::Register(c) => format!("reg {:?}", c),
         }),
         Ok(Err(e)) => {
@@ -80,6 +87,24 @@ fn observe(s: &Subject, schedule: Vec<((u64, u64), Perm)>) -> (Obs, Vec<IterEven
         }
     };
     (obs, log)
+}
+
+/// the Bristol export of a small circuit (parties who exchange exported circuits need identical files)
+fn bristol_text(c: &garble_lang::circuit::Circuit) -> String {
+    if c.gates.len() > 3000 {
+        return "<not exported: large>".into();
+    }
+    let dir = format!("{}/tmp", std::env::var("CARGO_TARGET_DIR").unwrap_or_else(|_| "/verif/target".into()));
+    let _ = std::fs::create_dir_all(&dir);
+    let path = std::path::PathBuf::from(format!("{dir}/c06-{}-{:?}.txt", std::process::id(), std::thread::current().id()));
+    let r = catch(|| c.format_as_bristol(&path));
+    let out = match r {
+        Ok(Ok(())) => std::fs::read_to_string(&path).unwrap_or_else(|e| format!("<unreadable: {e}>")),
+        Ok(Err(e)) => format!("<refused: {e:?}>"),
+        Err(p) => format!("<panic: {p}>"),
+    };
+    let _ = std::fs::remove_file(&path);
+    out
 }
 
 /// the distinct choice points of a run, in order of first occurrence
@@ -167,6 +192,12 @@ pub fn subjects(tier: Tier) -> Vec<Subject> {
     out.push(Subject {
         name: "pub-fn-calls-faulty-pub-fn".into(),
         src: "pub fn a(x: u8) -> u8 {\n  b(x) + c(x)\n}\npub fn b(y: u8) -> u8 {\n  y + true\n}\npub fn c(z: u8) -> u8 {\n  b(z) + nope\n}\npub fn d(w: u8) -> u8 {\n  c(w)\n}\n".into(),
+        consts: vec![],
+        register: false,
+    });
+    out.push(Subject {
+        name: "repeated-and-constant-outputs-exported".into(),
+        src: "pub fn main(a: u8, b: u8) -> (u8, u8, u8, u8, bool, bool, u16) {\n  let c = a ^ b;\n  let d = a & b;\n  (c, d, c, d, true, true, c as u16)\n}\n".into(),
         consts: vec![],
         register: false,
     });
